@@ -166,6 +166,12 @@ structure Cfg where
   ipv : Bool := false     -- EnableIPValidation
   tp : Bool := false      -- TrustProxy on, peer not trusted
   srv : Bool := false     -- driven through a real server over loopback TCP (peer 127.0.0.1, random port)
+  /-- handler chain in front of the endpoint: 0 none; 1 `hh` two handlers on the endpoint route;
+      2 `mw` `Use("/u/:tenant", front)`; 3 `rr` the same, `front` calls RestartRouting on its first
+      visit; 4 `po` `Use` of the endpoint's pattern with `:tenant` for `:name`, `front` overrides the
+      path (name ↦ "ovr" ++ name) before `Next()`. (Patterns are not spelled out here: they contain the
+      comment opener.) -/
+  chain : Nat := 0
   deriving Repr
 
 structure Req where
@@ -348,12 +354,33 @@ def bindData (split brackets : Bool) (ps : List (Bytes × Bytes)) : List (Bytes 
 def Req.formArgs (q : Req) : List (Bytes × Bytes) :=
   if q.bkind == 'f' || q.bkind == 'm' then q.bform else []
 
-/-- ctx.go `Params` on the harness route (Route.Params = ["name", "*1"]) -/
-def Req.param (c : Cfg) (q : Req) (k : Bytes) : Bytes :=
+/-- ctx.go `Params` on a route whose Params are [`pname`] or [`pname`, "*1"] -/
+def paramOf (c : Cfg) (pname : Bytes) (star : Bool) (name rest k : Bytes) : Bytes :=
   let k := if k == b "*" || k == b "+" then k ++ b "1" else k
-  if k == b "name" || (!c.cs && equalFold k (b "name")) then q.name
-  else if k == b "*1" then q.rest
+  if k == pname || (!c.cs && equalFold k pname) then name
+  else if star && k == b "*1" then rest
   else []
+
+/-- The name the ENDPOINT handler sees: with `po` the handler in front has rewritten the path. -/
+def Req.endName (c : Cfg) (q : Req) : Bytes := if c.chain == 4 then b "ovr" ++ q.name else q.name
+
+/-- ctx.go `Params` in the handler at `stage` (0 = endpoint, parameters name and star; 1 = the handler
+    in front: the same route for `hh`, parameter tenant only for `mw`/`rr`, tenant and star for `po`) -/
+def Req.param (c : Cfg) (stage : Nat) (q : Req) (k : Bytes) : Bytes :=
+  if stage == 0 then paramOf c (b "name") true (q.endName c) q.rest k
+  else if c.chain == 1 then paramOf c (b "name") true q.name q.rest k
+  else paramOf c (b "tenant") (c.chain == 4) q.name q.rest k
+
+/-- ctx.go `Path` in the handler at `stage` -/
+def Req.pathAt (c : Cfg) (stage : Nat) (q : Req) : Bytes :=
+  if stage == 0 then b "/u/" ++ q.endName c ++ b "/-/" ++ q.rest else q.path
+
+/-- `Bind().URI` into a map at `stage`: the route's parameters in key order -/
+def Req.uriMap (c : Cfg) (stage : Nat) (q : Req) : List Bytes :=
+  if stage == 0 then [b "*1", q.rest, b "name", q.endName c, []]
+  else if c.chain == 1 then [b "*1", q.rest, b "name", q.name, []]
+  else if c.chain == 4 then [b "*1", q.rest, b "tenant", q.name, []]
+  else [b "tenant", q.name, []]
 
 /-- `fasthttp.RequestCtx.FormValue`: first non-empty of query args, post args, multipart values -/
 def Req.formValue (q : Req) (k : Bytes) : Bytes :=
@@ -366,9 +393,9 @@ def Req.formValue (q : Req) (k : Bytes) : Bytes :=
 def Req.method (q : Req) : Bytes := if q.bkind == 'n' then b "GET" else b "POST"
 
 /-- response headers the harness' handler has set before it calls the accessors -/
-def Req.respHeader (q : Req) (k : Bytes) : Option Bytes :=
+def Req.respHeader (c : Cfg) (stage : Nat) (q : Req) (k : Bytes) : Option Bytes :=
   let k' := toLower k
-  if k' == b "x-resp" then some (b "r-" ++ q.name)
+  if k' == b "x-resp" then some (b "r-" ++ (if stage == 0 then q.endName c else q.name))
   else if k' == b "x-echo" then some (q.header (b "X-Custom-A"))
   else if k' == b "content-type" then some (b "text/plain; charset=utf-8")   -- fasthttp's default
   else none
@@ -377,12 +404,15 @@ def Req.respHeader (q : Req) (k : Bytes) : Option Bytes :=
     `none` = no transcription (checked for stability only). The `Req.` / `Res.` facades (req.go,
     res.go) delegate to the context's methods. -/
 def sem (c : Cfg) (q : Req) (meth : String) (key : Bytes) : Option (List Bytes) :=
+  -- `Mw.X` / `H1.X`: accessor X called in the handler in front of the endpoint (stage 1)
+  let stage := if meth.startsWith "Mw." || meth.startsWith "H1." then 1 else 0
+  let meth := if stage == 1 then (meth.drop 3).toString else meth
   -- `Pre.X`: the same accessor, called by the harness before all others
   let meth := if meth.startsWith "Pre." then (meth.drop 4).toString else meth
   let meth := if meth.startsWith "Req." then (meth.drop 4).toString else meth
   match meth with
-  | "Params" | "Params[string]" | "Params[[]byte]" => some [q.param c key]
-  | "Path" => some [q.path]
+  | "Params" | "Params[string]" | "Params[[]byte]" => some [q.param c stage key]
+  | "Path" => some [q.pathAt c stage]
   | "OriginalURL" => some [q.uri]
   | "Protocol" => some [if q.proto == 1 then b "HTTP/1.0" else b "HTTP/1.1"]
   | "Method" => some [q.method]
@@ -406,8 +436,8 @@ def sem (c : Cfg) (q : Req) (meth : String) (key : Bytes) : Option (List Bytes) 
   | "BodyRaw" => if q.bkind == 'm' then none else some [q.body]
   | "Body" => if q.bkind == 'm' then none else q.decodedBody.map fun d => [d]
   | "FormValue" => some [q.formValue key]
-  | "GetRespHeader" | "Res.Get" => (q.respHeader key).map fun v => [v]
-  | "Route" => some [q.method, [], b "/u/:name/-/*", b "name", b "*1"]
+  | "GetRespHeader" | "Res.Get" => (q.respHeader c stage key).map fun v => [v]
+  | "Route" => if stage == 1 && c.chain != 1 then none else some [q.method, [], b "/u/:name/-/*", b "name", b "*1"]
   | "Bind.Query:map" => some (flatMapLast (bindData c.split true q.query) ++ [[]])
   | "Bind.Query:mapslice" => some (flatMapAll (bindData c.split true q.query) ++ [[]])
   | "Bind.Cookie:map" => some (flatMapLast (bindData c.split false q.cookies) ++ [[]])
@@ -418,8 +448,8 @@ def sem (c : Cfg) (q : Req) (meth : String) (key : Bytes) : Option (List Bytes) 
     if q.bkind == 'f' || q.bkind == 'm' then some (flatMapLast (bindData c.split true q.formArgs) ++ [[]]) else none
   | "Bind.Body:mapslice" =>
     if q.bkind == 'f' || q.bkind == 'm' then some (flatMapAll (bindData c.split true q.formArgs) ++ [[]]) else none
-  | "Bind.URI:map" => some ([b "*1", q.rest, b "name", q.name, []])
-  | "Bind.URI:mapslice" => some ([b "*1", q.rest, b "name", q.name, []])
+  | "Bind.URI:map" => some (q.uriMap c stage)
+  | "Bind.URI:mapslice" => some (q.uriMap c stage)
   | _ => none
 
 end C06
